@@ -271,5 +271,15 @@ RBaseChoicesOverlap == {<<2, <<>> >>, <<2, <<1>> >>, <<3, <<2, 1>> >>,
 \* ---- sibling provided interfaces under subscriptions (C07)
 SubKeysSib == {<< <<1>>, p >> : p \in 1..3}
 LookKeysSib == {<< <<1>>, 1 >>, << <<1>>, 2 >>}
+\* ---- re-basing an ANCESTOR of a looked-up specification (C05): 3 RC(RB(RA));
+\* only RC is ever looked up, only RB is re-based, registrations are for RA
+SB_Chain3 == (0 :> <<>>) @@ (1 :> <<>>) @@ (2 :> <<1>>) @@ (3 :> <<2>>)
+RegKeysAnc == {<< <<1>>, 1, "" >>, << <<2>>, 1, "" >>}
+SubKeysAnc == {<< <<1>>, 1 >>}
+LookKeysAnc == {<< <<3>>, 1 >>}
+SBaseChoicesAnc == {<<2, <<>> >>, <<2, <<1>> >>}
+\* ---- a chain whose TOP gets a new base (C06/C07): 1 top, 2(1), 3(2), 4 extra
+RB_Chain3Extra == << <<>>, <<1>>, <<2>>, <<>> >>
+RBaseChoicesTop == {<<1, <<>> >>, <<1, <<4>> >>, <<2, <<1>> >>, <<2, <<>> >>}
 None == {}
 =============================================================================
